@@ -107,6 +107,23 @@ class TornProxy:
         return getattr(self.inner, name)
 
 
+TRIPPED = []
+
+
+def _trip(tag):
+    TRIPPED.append(tag)
+    return tag
+
+
+class Tripwire:
+    """Unpickling an instance CALLS _trip: evidence that bytes nobody authenticated were deserialised."""
+    def __init__(self, tag):
+        self.tag = tag
+
+    def __reduce__(self):
+        return (_trip, (self.tag,))
+
+
 def disk_part(ctx, batch, N):
     import logging
     from hypergraph.cache import DiskCache
@@ -130,6 +147,7 @@ def disk_part(ctx, batch, N):
             model_ops, gets = [], []
             trace = []
             spy.loaded.clear()
+            del TRIPPED[:]
             auth, other = {}, {}      # real payload bytes -> model bytes: pickle.dumps(v) is (v, 0); any other byte string gets its own id
 
             def model_bytes(nb):
@@ -146,7 +164,8 @@ def disk_part(ctx, batch, N):
                     kind, k = script.pop(0)
                 else:
                     k = rng.choice(keys)
-                    kind = rng.choice(["set", "set", "get", "get", "torn", "flip", "trunc", "ptype", "sig", "sigtype", "dropsig", "droppayload"])
+                    kind = rng.choice(["set", "set", "get", "get", "torn", "flip", "trunc", "ptype", "sig", "sigtype", "dropsig", "droppayload",
+                                       "ppickle", "sigpickle", "sigtext"])
                 trace.append((kind, k))
                 try:
                     if kind == "set":
@@ -168,7 +187,12 @@ def disk_part(ctx, batch, N):
                             proxy.armed = False
                         model_ops.append(f"(DSetCrashed _ _ {c_pos(N(k))} (VInt {c_Z(v)}))")
                     elif kind == "get":
+                        del TRIPPED[:]
                         hit, v = dc.get(k)
+                        if TRIPPED:
+                            ctx.violation("oracle", f"DiskCache.get({k}): a record replaced by a pickled object was UNPICKLED ({TRIPPED[:3]}): bytes nobody "
+                                          "authenticated were deserialised (their __reduce__ ran)", case={"trace": list(trace)})
+                            del TRIPPED[:]
                         gets.append((len(model_ops), k, hit, v))
                         model_ops.append(f"(DGet _ _ {c_pos(N(k))})")
                         if hit and v not in complete[k]:
@@ -185,6 +209,16 @@ def disk_part(ctx, batch, N):
                         elif kind == "ptype" and raw is not None:
                             proxy.inner.set(k, "not-bytes")
                             model_ops.append(f"(DPayloadType _ _ {c_pos(N(k))})")
+                        elif kind == "ppickle" and raw is not None:
+                            # the payload record replaced by a PICKLED object (the store pickles what is not bytes / text / number)
+                            proxy.inner.set(k, Tripwire(f"payload:{k}"))
+                            model_ops.append(f"(DPayloadType _ _ {c_pos(N(k))})")
+                        elif kind == "sigpickle" and sig is not None:
+                            proxy.inner.set(k + ":hmac", Tripwire(f"sig:{k}"))
+                            model_ops.append(f"(DSigType _ _ {c_pos(N(k))})")
+                        elif kind == "sigtext" and sig is not None:
+                            proxy.inner.set(k + ":hmac", "\u00e9" * 64)      # text, but not ASCII
+                            model_ops.append(f"(DAlterSig _ _ {c_pos(N(k))} (1%positive, VNone, {len(trace)}%nat))")
                         elif kind == "sig" and sig is not None:
                             proxy.inner.set(k + ":hmac", "0" * 64)
                             model_ops.append(f"(DAlterSig _ _ {c_pos(N(k))} (1%positive, VNone, {len(trace)}%nat))")
